@@ -87,7 +87,7 @@ def problems(env, cfg, tier):
             "C05.illegal_move_is_ignored": ok | stay,
             "C05.illegal_move_frame": ok | ((s2.grid == s.grid).all() & (s2.step_count == s.step_count + 1)),
             "C07.player_on_walkable_cell": walkable(env, q.x, q.y),
-            "C07.grid_is_the_maze": s2.grid == maze(env),
+            "C07.grid_is_the_maze": jnp.all(s2.grid == maze(env)),  # one obligation for the 868 cells (each is literally a conjunct of Inv)
             "C07.ghosts_inside_grid": inv(env, s2, T)["ghosts_inside_grid"],
             "C07.ghost_homes_inside_grid": inv(env, s2, T)["ghost_homes_inside_grid"],
             "C07.counter": last | ((s2.step_count >= 0) & (s2.step_count < T)),
@@ -97,13 +97,10 @@ def problems(env, cfg, tier):
             "C11.inv_counter": last | ((s2.step_count >= 0) & (s2.step_count < T)),
             "canary.player_never_moves": q.x == p.x,
         }
-        for nm, x, y in zip(FIELDS, copied(s2), copied_obs(o)):
-            out["C12.obs." + nm] = jnp.all(jnp.asarray(x) == jnp.asarray(y))
-        out["C12.obs.action_mask"] = o.action_mask == legal(env, s2)
         out.update(K.spec_bounds(env.observation_spec, o, "C01.step_obs_bounds"))
         return out
 
-    step = dict(title=f"PacMan.step@{cfg}", args=(T0, state, a), requires=req, ensures=ens,
+    step = dict(title=f"PacMan.step@{cfg}", args=(T0, state, a), requires=req, ensures=ens, props=("C01", "C04", "C05", "C07", "C11"),
                 targets=[type(env).step, type(env)._update_state, type(env).check_wall_collisions, type(env)._compute_action_mask,
                          type(env)._observation_from_state],
                 note="time_limit is a symbolic scalar T >= 1; the maze is the generator's constant maze (Inv: grid never changes)")
@@ -121,10 +118,27 @@ def problems(env, cfg, tier):
                "canary.counter_never_reaches_T": s2.step_count < T}
         for nm, x, y in zip(FIELDS, copied(s2), copied_obs(o)):
             out["C12.obs_any_state." + nm] = jnp.all(jnp.asarray(x) == jnp.asarray(y))
+        # the mask handed out is the mask function of the NEW state; with `C04.compute_action_mask_is_the_rule` (any state
+        # satisfying Inv) and `C07.*` (Inv of the new state) this gives `obs.action_mask == legal(new state)`, which is also
+        # proved directly as `C04.mask_is_exactly_the_legal_moves`
+        out["C12.obs_any_state.action_mask_is_mask_fn_of_new_state"] = o.action_mask == env._compute_action_mask(s2).astype(bool)
         return out
 
     step_weak = dict(title=f"PacMan.step_any_state@{cfg}", args=(T0, state, a), requires=req_weak, ensures=ens_weak, props=("C11", "C12"),
                      targets=[type(env).step, type(env)._observation_from_state], note="no invariant assumed (covers steps after LAST)")
+
+    # mask function alone, on any state satisfying Inv
+    def req_s(s):
+        return inv(env, s, jnp.int32(2 ** 30))
+
+    def ens_mask(s):
+        m = env._compute_action_mask(s).astype(bool)
+        return {"C04.compute_action_mask_is_the_rule": m == legal(env, s),
+                "C12.mask_fn_is_the_rule": m == legal(env, s),
+                "canary.up_is_always_legal": m[0]}
+
+    maskp = dict(title=f"PacMan.mask@{cfg}", args=(state,), requires=req_s, ensures=ens_mask, props=("C04", "C12"),
+                 targets=[type(env)._compute_action_mask], note="function-level contract of the mask function")
 
     # reset: the generator is deterministic (constant maze): called directly
     def reset_ens(key):
@@ -144,4 +158,4 @@ def problems(env, cfg, tier):
 
     reset = dict(title=f"PacMan.reset@{cfg}", args=(jnp.zeros((2,), jnp.uint32),), requires=None, ensures=reset_ens, targets=[type(env).reset],
                  note="deterministic generator evaluated directly")
-    return [step, step_weak, reset]
+    return [step, step_weak, maskp, reset]
